@@ -145,13 +145,13 @@ PROPS = {
  "C10": {
   "module": "Zog.Props.C10",
   "theorems": [P + "C10." + t for t in ["get_append", "inv_add", "issue_map_well_formed", "root_key", "nonroot_key", "render_is_joinSpec", "key_source_tag_first", "key_zog_tag_next", "key_schema_key_last", "key_validate", "issue_path_override", "sanitize_keys", "sanitize_list_length", "sanitize_get", "issues_addressed_at_every_depth", "node_files_below_itself"]] + ["Zog.Spec.proc_at"],
-  "streams": [st("path", 3000, 200000), eng(2500, 100000), eng(1200, 60000, "deep"), st("front", 400, 10000)],
+  "streams": [st("path", 3000, 200000), eng(2500, 100000), eng(1200, 60000, "deep"), eng(300, 6000, "long"), st("front", 400, 10000)],
   "trusted_base": ["modelled, not verified: lean/Zog/Path.lean mirrors internals/PathBuilder.go String and internals/Issues.go ErrsMap.Add; keyFor mirrors internals/DataProviders.go GetKeyFromField"] + ENGINE_TB,
   "assumptions": ["no issue is addressed to the reserved key `$first` (IssuePath(\"$first\") is outside the property)"] + ENGINE_ASSUME,
  },
  "C11": {
   "module": "Zog.Props.C11",
-  "theorems": [P + "C11." + t for t in ["catalogue_complete_en", "catalogue_complete_es", "catalogue_complete_default", "catalogue_described", "catalogue_well_formed", "user_tests_complete_en", "user_tests_complete_es", "user_tests_complete_default", "user_tests_described", "no_value_placeholder", "test_message_wins", "exec_formatter_next", "global_formatter_last", "issue_of_test_described", "i18n_uses_ctx_lang", "i18n_default_lang", "issue_invariants_lift", "every_issue_has_a_message"]] + ["Zog.Spec.proc_inv"],
+  "theorems": [P + "C11." + t for t in ["catalogue_complete_en", "catalogue_complete_es", "catalogue_complete_default", "catalogue_described", "catalogue_well_formed", "user_tests_complete_en", "user_tests_complete_es", "user_tests_complete_default", "user_tests_described", "no_value_placeholder", "test_message_wins", "exec_formatter_next", "global_formatter_last", "issue_of_test_described", "i18n_uses_ctx_lang", "i18n_default_lang", "last_installation_wins", "reinstall_resets_lang_key", "issue_invariants_lift", "every_issue_has_a_message"]] + ["Zog.Spec.proc_inv"],
   "streams": [st("msg", 1, 1), eng(2500, 100000, "fmt")],
   "trusted_base": ["regenerated on every run (run-time dump of the compiled maps and of every built-in test): lean/Zog/Gen/Tables.lean, lean/Zog/Gen/Catalogue.lean",
                    "modelled, not verified: lean/Zog/Msg.lean mirrors conf/issueFormatConf.go NewDefaultFormatter and i18n/i18n.go; strings.ReplaceAll and fmt %v are external"] + ENGINE_TB,
